@@ -267,14 +267,12 @@ func newEvent(msg, syscall *auparse.AuditMessage) *Event {
 
 	if result, found := data["result"]; found {
 		event.Result = result
-		delete(data, "result")
 	} else {
 		event.Result = "unknown"
 	}
 
 	if ses, found := data["ses"]; found {
 		event.Session = ses
-		delete(data, "ses")
 	}
 
 	if auid, found := data["auid"]; found {
@@ -288,8 +286,11 @@ func newEvent(msg, syscall *auparse.AuditMessage) *Event {
 	// Ignore error because msg.Data() would have produced the same error.
 	event.Tags, _ = msg.Tags()
 
+	// data is the map cached by the message, so it must not be modified.
 	for k, v := range data {
-		if strings.HasSuffix(k, "uid") || strings.HasSuffix(k, "gid") {
+		if k == "result" || k == "ses" {
+			continue // Moved to Result and Session above.
+		} else if strings.HasSuffix(k, "uid") || strings.HasSuffix(k, "gid") {
 			addSubjectAttribute(k, v, event)
 		} else if strings.HasPrefix(k, "subj_") {
 			addSubjectSELinuxLabel(k[5:], v, event)
@@ -427,7 +428,6 @@ func addExecveRecord(execve *auparse.AuditMessage, event *Event) {
 			return
 		}
 
-		delete(data, key)
 		args = append(args, arg)
 	}
 
